@@ -255,10 +255,26 @@ func mutate(t *rapid.T, m *Msg, witness uint64) {
 			deep = append(deep, n)
 		}
 	}
-	k := rapid.SampledFrom([]string{"deep-field", "deep-field", "deep-field", "deep-field", "deep-trunc", "deep-trunc", "hdr-flags", "hdr-len", "hdr-type", "hdr-seid", "hdr-seq", "ie-type", "ie-len-delta", "ie-len-set", "ie-trunc", "ie-extend",
+	idTypes := map[uint16]bool{ie.PDRID: true, ie.FARID: true, ie.QERID: true, ie.URRID: true, ie.BARID: true}
+	var idNodes []*Node
+	for _, n := range nodes {
+		if idTypes[n.Type] && !n.Grouped {
+			idNodes = append(idNodes, n)
+		}
+	}
+	k := rapid.SampledFrom([]string{"id-value", "id-value", "id-value", "id-value", "deep-field", "deep-field", "deep-field", "deep-field", "deep-trunc", "deep-trunc", "hdr-flags", "hdr-len", "hdr-type", "hdr-seid", "hdr-seq", "ie-type", "ie-len-delta", "ie-len-set", "ie-trunc", "ie-extend",
 		"ie-pattern", "ie-flipbit", "ie-dup", "ie-del", "ie-swap", "ie-nest", "ie-empty", "trunc", "ie-type", "ie-len-delta", "ie-pattern", "ie-flipbit"}).Draw(t, "mut")
 	m.Muts = append(m.Muts, k)
 	switch k {
+	case "id-value":
+		// a well-formed message naming a rule id the session does not have (or the extreme values of the id space)
+		if len(idNodes) > 0 {
+			n := idNodes[rapid.IntRange(0, len(idNodes)-1).Draw(t, "idnode")]
+			v := rapid.SampledFrom([]uint32{0, 1, 2, 3, 7, 255, 256, 65535, 65536, 1<<31 - 1, 1 << 31, 1<<32 - 1}).Draw(t, "idval")
+			for i := range n.Val {
+				n.Val[len(n.Val)-1-i] = byte(v >> (8 * i))
+			}
+		}
 	case "deep-field":
 		// IEs whose fields go-upf's driver decodes through go-pfcp's field parsers: flag octets and inner length fields sit in the first octets
 		if len(deep) > 0 {
@@ -622,7 +638,9 @@ func TestC07(t *testing.T) {
 			nodeIP := fmt.Sprintf("127.%d.0.2", 0) // replaced below
 			_ = nodeIP
 			bases := baseMessages(nodeIDPlaceholder, seids)
-			b := bases[rapid.IntRange(0, len(bases)-1).Draw(rt, "base")]
+			// session-level requests carry most of the handler logic: pick them three times as often
+			pickFrom := []int{0, 1, 2, 3, 4, 5, 6, 7, 7, 7, 8, 8, 8, 9, 9, 9, 10, 11, 12, 13, 14}
+			b := bases[pickFrom[rapid.IntRange(0, len(pickFrom)-1).Draw(rt, "base")]]
 			m := fromBytes(b)
 			m.From = from
 			k := rapid.IntRange(1, 4).Draw(rt, "nmut")
